@@ -2,6 +2,7 @@ use dashu_float::ops::DivRemEuclid;
 
 use crate::{
     layouts::{VecZnx, VecZnxToMut, VecZnxToRef, ZnxInfos, ZnxView, ZnxViewMut},
+    reference::vec_znx::normalize::znx_propagate_carry_through_gap,
     reference::znx::{
         ZnxCopy, ZnxNormalizeFinalStep, ZnxNormalizeFinalStepAssign, ZnxNormalizeFinalStepSub, ZnxNormalizeFirstStep,
         ZnxNormalizeFirstStepAssign, ZnxNormalizeFirstStepCarryOnly, ZnxNormalizeMiddleStep, ZnxNormalizeMiddleStepAssign,
@@ -238,6 +239,9 @@ where
         ZNXARI::znx_copy(res.at_mut(res_col, size - j - 1), tmp);
     }
 
+    // If the shift exceeds the precision of res, the carry first crosses the missing limbs.
+    znx_propagate_carry_through_gap::<ZNXARI>(base2k, steps - res_end, tmp, carry);
+
     // Zeroes the top limbs, then propagates the carry over them,
     // from the least significant (res_end - 1) to the most significant (0).
     for j in 0..res_end {
@@ -277,8 +281,11 @@ pub fn vec_znx_rsh<R, A, ZNXARI, const OVERWRITE: bool>(
     let mut res: VecZnx<&mut [u8]> = res.to_mut();
     let a: VecZnx<&[u8]> = a.to_ref();
 
+    let n: usize = res.n();
     let res_size: usize = res.size();
     let a_size: usize = a.size();
+
+    let (carry, zero) = carry[..2 * n].split_at_mut(n);
 
     let mut steps: usize = k / base2k;
     let k_rem: usize = k % base2k;
@@ -331,6 +338,9 @@ pub fn vec_znx_rsh<R, A, ZNXARI, const OVERWRITE: bool>(
         );
     }
 
+    // If the shift exceeds the precision of res, the carry first crosses the missing limbs.
+    znx_propagate_carry_through_gap::<ZNXARI>(base2k, steps - res_end, zero, carry);
+
     if OVERWRITE {
         // Propagates carry on the rest of the limbs of res
         for j in 0..res_end {
@@ -368,8 +378,11 @@ where
     let mut res: VecZnx<&mut [u8]> = res.to_mut();
     let a: VecZnx<&[u8]> = a.to_ref();
 
+    let n: usize = res.n();
     let res_size: usize = res.size();
     let a_size: usize = a.size();
+
+    let (carry, zero) = carry[..2 * n].split_at_mut(n);
 
     let mut steps: usize = k / base2k;
     let k_rem: usize = k % base2k;
@@ -412,6 +425,9 @@ where
     // Negate carry before propagation: the carry from normalizing rsh(a)
     // must be subtracted from the lower limbs of res.
     carry.iter_mut().for_each(|c| *c = -*c);
+
+    // If the shift exceeds the precision of res, the carry first crosses the missing limbs.
+    znx_propagate_carry_through_gap::<ZNXARI>(base2k, steps - res_end, zero, carry);
 
     for j in 0..res_end {
         if j == res_end - 1 {
